@@ -58,6 +58,7 @@ func (vfs *OrefaFS) createNode(parent *node, absPath, fileName string, mode fs.F
 		id:    atomic.AddUint64(vfs.lastId, 1),
 		mtime: time.Now().UnixNano(),
 		mode:  mode,
+		dir:   mode.IsDir(),
 		uid:   vfs.User().Uid(),
 		gid:   vfs.User().Gid(),
 		nlink: 1,
@@ -201,7 +202,7 @@ func (nd *node) setOwner(uid, gid int) {
 
 // size returns the size of the file.
 func (nd *node) size() int64 {
-	if nd.mode.IsDir() {
+	if nd.dir {
 		return int64(len(nd.children))
 	}
 
